@@ -201,6 +201,8 @@ def _einsum(a, k):
     ops = a[1:]
     if len(ops) == 1:
         x = ops[0]
+        if spec == "ij...->ji...":
+            return _swap01(x)
         if spec == "...j->j...":
             return _transpose_first_last(x, True)
         if spec == "j...->...j":
@@ -299,12 +301,23 @@ def _argsort(recv):
 
 
 def _product(x, axis=None):
-    if axis is not None:
-        raise Undecided("product with an axis on list tensors")
-    tot = Poly.const(1)
-    for v in _flatten(x):
-        tot = tot * to_poly(v)
-    return tot
+    if axis is None:
+        tot = Poly.const(1)
+        for v in _flatten(x):
+            tot = tot * to_poly(v)
+        return tot
+    if axis < 0:
+        axis += len(_shape(x))
+    if axis == 0:
+        acc = x[0]
+        for y in x[1:]:
+            acc = _zip(lambda p_, q_: to_poly(p_) * to_poly(q_), acc, y)
+        return _map(lambda v: to_poly(v), acc)
+    return [_product(y, axis - 1) for y in x]
+
+
+def _swap01(x):
+    return [[x[i][j] for i in range(len(x))] for j in range(len(x[0]))]
 
 
 def _axis(k, a, pos=1):
@@ -347,6 +360,7 @@ def externals(interp_truth=None):
         "astensor": _astensor,
         "divide": lambda a, k: arith("/", a[0], a[1]), "multiply": lambda a, k: arith("*", a[0], a[1]),
         "power": lambda a, k: arith("**", a[0], a[1]), "add": lambda a, k: arith("+", a[0], a[1]), "subtract": lambda a, k: arith("-", a[0], a[1]),
+        "clip": lambda a, k: _map(lambda v: (to_poly(v) if (a[1] if len(a) > 1 else k.get("min_value")) is None else fn("max", to_poly(v), to_poly(a[1] if len(a) > 1 else k.get("min_value")))), a[0]),
         "abs": _absf, "exp": _ew1("exp"), "log": _ew1("log"),
         "tolist": lambda a, k: a[0],
         "concatenate": lambda a, k: _concat(a[0], _axis(k, a)),
